@@ -11,6 +11,7 @@ EXE = 'driver_posterior'
 THEOREMS = [
     'PbBss.C01.affiliation_nonneg',
     'PbBss.C01.affiliation_le_one',
+    'PbBss.C01.affiliation_sum_le_one',
     'PbBss.C01.affiliation_sum_one',
     'PbBss.C01.affiliation_bayes',
     'PbBss.C01.affiliation_masked',
@@ -18,16 +19,17 @@ THEOREMS = [
     'PbBss.C01.affiliation_max_term',
     'PbBss.C01.affiliation_shift',
     'PbBss.C01.affiliation_clip',
-    'PbBss.C01.affiliation_sum_le_one',
     'PbBss.C01.hden_of_positive_mass',
+    'PbBss.C01.hden_no_mask',
     'PbBss.C01.hden_fails_when_argmax_masked',
     'PbBss.C01.predict_bayes',
+    'PbBss.C01.predict_sum_one',
     'PbBss.C01.unsqueeze_documented_options',
     'PbBss.C01.weightAt_documented_options',
-    'PbBss.C01.flag_values',
-    'PbBss.C01.oneHot_simplex',
     'PbBss.C01.uniformNormalized_simplex',
+    'PbBss.C01.oneHot_simplex',
     'PbBss.C01.dirichletT_simplex',
+    'PbBss.C01.flag_values',
     'PbBss.C01.deflation_simplex',
     'PbBss.C01.deflationSimilarity_le_one',
     'PbBss.C01.normalizeWhere_zero',
@@ -96,7 +98,7 @@ def posterior_valid_and_bayes(model, stream, obs, emb, init, num_classes, seed, 
                         seed=seed, predict=True)
     except Exception as e:  # noqa
         _exc(stream, name, e)
-        if stream == 'regular' and isinstance(e, pu.IMPLICIT_EXC):
+        if stream == 'regular' and pu.implicit_exception(e):
             return Fail('implicit-exception-on-regular-input',
                         f'{name}: {type(e).__name__}: {str(e)[:200]} (options {o.keys()})')
         return None     # explicit rejection: allowed by the property
@@ -264,7 +266,13 @@ def flag_initializer_values(lead, N, D, K, minimum):
     bad = pu.check_distribution(a, tuple(lead) + (K, N))
     if bad:
         return Fail('flag-' + bad[0], f'flag(K={K}, N={N}, minimum={minimum!r}): {bad[1]}')
-    lab = np.array([(n * K) // N for n in range(N)])
+    # segment labels: the class holding the largest value; the time axis is split into K consecutive segments, the
+    # boundary frame may fall on either side of n*K/N (np.linspace rounds in floating point)
+    first = np.asarray(a).reshape(-1, K, N)[0]
+    lab = np.argmax(first, axis=0)
+    exact = np.array([(n * K) // N for n in range(N)])
+    if np.any(np.diff(lab) < 0) or np.any((lab != exact) & (lab != exact - 1)):
+        return Fail('flag-segments', f'flag(K={K}, N={N}): assigned classes {lab.tolist()} are not the K consecutive segments')
     assigned = np.zeros((K, N), bool)
     assigned[lab, np.arange(N)] = True
     assigned = np.broadcast_to(assigned, a.shape)
@@ -289,7 +297,7 @@ def deflation_initializer_valid(Y, K, permutation_free, neighbors, eps):
         a = initializer.deflation.deflationSeed(Y, K, permutation_free=permutation_free, neighbors=neighbors, eps=eps)
     except Exception as e:  # noqa
         _exc('init', 'deflationSeed', e)
-        if isinstance(e, pu.IMPLICIT_EXC):
+        if pu.implicit_exception(e):
             return Fail('deflation-implicit-exception', f'{type(e).__name__}: {str(e)[:200]}')
         return None
     F, T, D = Y.shape
@@ -320,6 +328,41 @@ def masked_argmax_case(rng, single):
         y = y.astype(np.complex64)
     return dict(model='cacgmm', stream='degenerate', obs=y, emb=None, init=init, num_classes=None, seed=0,
                 iterations=int(rng.integers(1, 4)), opts={}, mask=mask, also_fit_predict=False)
+
+
+def fixed_defect_cases(rng):
+    """zero frames + covariance_norm 'trace'/False (all-zero scatter of a class); a frame with zero saliency in every
+    frequency under time-dependent weights of the integration models; fit_predict with a source-activity mask"""
+    out = []
+    D, N, K = 3, 12, 2
+    y = pu.cnormal(rng, (N, D))
+    y[:N // 2] = 0
+    init = np.zeros((K, N))
+    init[0, :N // 2] = 1
+    init[1, N // 2:] = 1
+    for norm in ('trace', False):
+        for data in (y, np.zeros_like(y)):
+            out.append(dict(model='cacgmm', stream='degenerate', obs=data, emb=None, init=init, num_classes=None, seed=0,
+                            iterations=2, opts={'covariance_norm': norm}, mask=None, also_fit_predict=True))
+    F, T, E = 3, 10, 3
+    obs, emb = pu.gen_pair(rng, [F], T, D, E, 'normal')
+    sal = rng.random((F, T)) + 0.1
+    sal[:, 4] = 0
+    for name in ('gcacgmm', 'vmfcacgmm'):
+        for wca in ((-3,), (-1,)):
+            s2 = sal.copy()
+            if wca == (-1,):
+                s2[:] = rng.random((F, T)) + 0.1
+                s2[1, :] = 0
+            out.append(dict(model=name, stream='degenerate', obs=obs, emb=emb, init=pu.gen_init(rng, [F], K, T, 'soft'),
+                            num_classes=None, seed=0, iterations=1,
+                            opts={'weight_constant_axis': wca, 'saliency': s2}, mask=None, also_fit_predict=True))
+    Kc = 3
+    yc = pu.cnormal(rng, (2, 20, 4))
+    out.append(dict(model='cacgmm', stream='regular', obs=yc, emb=None, init=pu.gen_init(rng, [2], Kc, 20, 'soft'),
+                    num_classes=None, seed=0, iterations=3, opts={}, mask=pu.gen_mask(rng, (2, Kc, 20), 'random'),
+                    also_fit_predict=True))
+    return out
 
 
 # ============================================================================= search
@@ -494,14 +537,365 @@ def search(ctx):
         ctx.count('init:deflation:' + kind)
         ctx.run(deflation_initializer_valid, Y=Y, K=K, permutation_free=bool(rng.random() < 0.5), neighbors=nb,
                 eps=float(rng.choice([0.0, 0.0, 1e-6])), _size=K * T)
-    # (4) the excluded point of the forced hypothesis, targeted (both precisions, default options)
+    # (4) targeted configurations: the excluded point of the forced hypothesis (both precisions, default options) and
+    #     the inputs that exposed the defects fixed in /repo (known_findings.txt: 1a7e8cd, aae1612, 6c7ed20, 3f05181)
     for single in (False, True, True):
         ctx.count('targeted:masked-argmax:' + ('single' if single else 'double'))
         ctx.run(posterior_valid_and_bayes, **masked_argmax_case(rng, single))
+    for inp in fixed_defect_cases(rng):
+        ctx.count('targeted:fixed-defect:' + inp['model'])
+        ctx.run(posterior_valid_and_bayes, **inp)
+    Yd, _ = pu.gen_pair(rng, [257], 11, 3, 2, 'normal')
+    ctx.count('targeted:fixed-defect:deflation-single-source')
+    ctx.run(deflation_initializer_valid, Y=Yd, K=1, permutation_free=True, neighbors=2, eps=0.0, _size=11)
     for k, v in EXC.items():
         ctx.count(k, v)
 
 
 # ============================================================================= correspondence
+def _close(a, b, rtol=1e-9, atol=1e-300):
+    """same NaN pattern, same infinities, finite values within rtol"""
+    a, b = np.asarray(a, dtype=np.float64), np.asarray(b, dtype=np.float64)
+    if a.shape != b.shape:
+        return False
+    na, nb = np.isnan(a), np.isnan(b)
+    if not np.array_equal(na, nb):
+        return False
+    fa = ~na
+    with np.errstate(all='ignore'):
+        return bool(np.all((a[fa] == b[fa]) | (np.abs(a[fa] - b[fa]) <= atol + rtol * np.maximum(np.abs(a[fa]), np.abs(b[fa])))))
+
+
+def _corr_kernel(ctx):
+    """(i) the posterior routine itself, one observation per driver line"""
+    rng = ctx.rng
+    lines, metas = [], []
+    for i in range(ctx.n(600, 12000)):
+        K = int(rng.integers(1, 7))
+        kind = str(rng.choice(['normal', 'wide', 'span-1e308', 'neginf', 'all-neginf', 'equal', 'posinf-weightless']))
+        if kind == 'normal':
+            lp = rng.normal(size=K) * 5
+        elif kind == 'wide':
+            lp = rng.normal(size=K) * 400
+        elif kind == 'span-1e308':
+            lp = rng.uniform(-1, 1, size=K) * 1e308
+        elif kind == 'neginf':
+            lp = rng.normal(size=K) * 5
+            lp[rng.random(K) < 0.4] = -np.inf
+        elif kind == 'all-neginf':
+            lp = np.full(K, -np.inf)
+        elif kind == 'equal':
+            lp = np.full(K, float(rng.normal() * 1e3))
+        else:
+            lp = rng.normal(size=K) * 50
+        wk = str(rng.choice(['simplex', 'zeros', 'tiny', 'unnormalised']))
+        w = rng.dirichlet(np.ones(K))
+        if wk == 'zeros':
+            w[rng.random(K) < 0.5] = 0.0
+        elif wk == 'tiny':
+            w = w * 10.0 ** rng.uniform(-320, -290)
+        elif wk == 'unnormalised':
+            w = rng.random(K) * 10.0 ** rng.uniform(-3, 3)
+        mk = str(rng.choice(['none', 'none', 'random', 'all-masked', 'all-active']))
+        mask = None
+        if mk == 'random':
+            mask = rng.random(K) < 0.6
+        elif mk == 'all-masked':
+            mask = np.zeros(K, bool)
+        elif mk == 'all-active':
+            mask = np.ones(K, bool)
+        eps = float(rng.choice([0.0, 0.0, 1e-10, 1e-3, 0.3]))
+        lines.append(f'aff {K} {0 if mask is None else 1} {fbits([pu.TINY])} {fbits([eps])} {fbits(w)} {fbits(lp)}'
+                     + ('' if mask is None else ' ' + ints(mask.astype(int))))
+        metas.append((w, lp, mask, eps, f'{kind}/{wk}/{mk}'))
+        ctx.count(f'corr-aff:{kind}')
+    out = run_driver(lines, exe=EXE)
+    worst = 0.0
+    for (w, lp, mask, eps, kind), o in zip(metas, out):
+        want = mmu.log_pdf_to_affiliation(w[:, None], lp[:, None].copy(),
+                                          source_activity_mask=None if mask is None else mask[:, None],
+                                          affiliation_eps=eps)[:, 0]
+        got = parse_floats(o)
+        ok = _close(got, want)
+        if ok and np.isfinite(want).all() and want.size:
+            with np.errstate(all='ignore'):
+                d = np.abs(got - want) / np.maximum(np.spacing(np.abs(want)), 5e-324)
+            worst = max(worst, float(np.max(d)))
+        ctx.corr('log_pdf_to_affiliation', ok, f'{kind}: w={w.tolist()} lp={lp.tolist()} mask={None if mask is None else mask.tolist()} '
+                 f'eps={eps} code={want.tolist()} model={got.tolist()}', {'w': w, 'lp': lp, 'mask': mask, 'eps': eps})
+    ctx.note(f'corr log_pdf_to_affiliation: largest deviation {worst:.1f} ulp over {len(metas)} columns')
+    ctx.sample({'op': 'aff', 'w': metas[-1][0].tolist(), 'lp': metas[-1][1].tolist(), 'eps': metas[-1][3]})
+
+
+def _small_fit(rng, name):
+    """small fitted model of every kind, <= 1 leading axis"""
+    K = int(rng.integers(1, 5))
+    if name == 'cacgmm':
+        K = max(K, 2)
+    D = int(rng.integers(2, 5))
+    E = int(rng.integers(2, 4))
+    F = int(rng.integers(1, 4))
+    lead = [F] if (name in pu.INTEGRATION or rng.random() < 0.8) else []
+    N = int(rng.integers(2 * D + K, 2 * D + K + 8))
+    obs, emb = pu.gen_pair(rng, lead, N, D, E, str(rng.choice(['normal', 'clustered'])), K)
+    opts = pu.gen_options(rng, name, len(lead) + 2, F=F if lead else None, allow_aligner=False, K=K)
+    opts.pop('inline_permutation_alignment', None)
+    init = pu.gen_init(rng, lead, K, N, str(rng.choice(['soft', 'uniform', 'flag'])))
+    mask = None
+    if name == 'cacgmm' and rng.random() < 0.5:
+        mask = pu.gen_mask(rng, tuple(lead) + (K, N), str(rng.choice(['random', 'some-columns-off'])))
+    if rng.random() < 0.3:
+        opts['saliency'] = pu.gen_saliency(rng, tuple(lead) + (N,), 'random')
+    o = dict(opts)
+    if mask is not None:
+        o['source_activity_mask'] = mask
+    m = pu.fit(name, obs, emb, init, int(rng.integers(1, 4)), o)
+    return m, obs, emb, opts, mask, (F if lead else 1, K, N), bool(lead)
+
+
+def _corr_predict(ctx):
+    """(ii) predict of the seven models vs the Lean posterior fed with the model's own log_pdf values and stored weights"""
+    rng = ctx.rng
+    lines, metas = [], []
+    per = ctx.n(12, 200)
+    for name in pu.MODELS:
+        done = 0
+        tries = 0
+        while done < per and tries < 4 * per:
+            tries += 1
+            try:
+                m, obs, emb, opts, mask, (F, K, N), has_lead = _small_fit(rng, name)
+            except Exception:  # noqa  (explicit rejections of a start are not the subject here)
+                continue
+            shape = (F, K, N)
+            w = np.asarray(m.weight, dtype=np.float64)
+            if name in pu.INTEGRATION:
+                sp, sc = pu.stream_log_pdfs(name, m, obs, emb)
+                want = m.predict(obs, emb)
+                axis = tuple(m.weight_constant_axis)
+                want_shape = unsqueeze(w, axis).shape
+                lines.append(f'ipredict {F} {K} {N} {len(axis)} {ints(axis)} {w.ndim} {ints(w.shape)} {fbits([pu.TINY])} '
+                             f'{fbits([0.0])} {fbits([m.spatial_weight])} {fbits([m.spectral_weight])} {fbits(w)} '
+                             f'{fbits(sp)} {fbits(sc)}')
+                metas.append((name, want.reshape(shape), want_shape, opts, 0.0))
+            else:
+                lp = pu.own_log_pdf(name, m, obs, emb).reshape(shape)
+                eps = float(rng.choice([0.0, 0.0, 1e-3])) if name in ('cacgmm', 'cbmm') else 0.0
+                if name == 'cacgmm':
+                    want = m._predict(pu.normalize_cacg(obs), source_activity_mask=mask, affiliation_eps=eps)[0]
+                    if eps == 0:
+                        assert np.array_equal(want, pu.predict(name, m, obs, emb, mask=mask))
+                elif name == 'cbmm':
+                    want = m.predict(obs, affiliation_eps=eps)
+                else:
+                    want = pu.predict(name, m, obs, emb)
+                wshape = w.shape
+                if len(wshape) > 3:
+                    continue
+                mk = None if mask is None else mask.reshape(shape)
+                lines.append(f'predict {F} {K} {N} {0 if mk is None else 1} {len(wshape)} {ints(wshape)} {fbits([pu.TINY])} '
+                             f'{fbits([eps])} {fbits(w)} {fbits(lp)}' + ('' if mk is None else ' ' + ints(mk.astype(int))))
+                metas.append((name, np.asarray(want).reshape(shape), None, opts, eps))
+            ctx.count(f'corr-predict:{name}:{opts["weight_constant_axis"]}')
+            done += 1
+    out = run_driver(lines, exe=EXE)
+    for (name, want, want_shape, opts, eps), o in zip(metas, out):
+        if want_shape is not None:
+            sh, vals = o.split('|')
+            got_shape = tuple(parse_ints(sh).tolist())
+            ctx.corr('unsqueeze', got_shape == tuple(want_shape), f'{name} wca={opts["weight_constant_axis"]}: code '
+                     f'{want_shape} model {got_shape}')
+            got = parse_floats(vals)
+        else:
+            got = parse_floats(o)
+        ok = got.size == want.size and _close(got.reshape(want.shape), want, rtol=1e-9, atol=1e-15)
+        ctx.corr(f'predict[{name}]', ok, f'{name} wca={opts["weight_constant_axis"]} eps={eps}: max |code-model| = '
+                 f'{np.max(np.abs(got.reshape(want.shape) - want)) if got.size == want.size else "size"}',
+                 {'want': want, 'got': got})
+    if metas:
+        ctx.sample({'op': 'predict', 'model': metas[-1][0], 'shape': list(metas[-1][1].shape),
+                    'wca': str(metas[-1][3]['weight_constant_axis'])})
+    # exact discrete part: unsqueeze shapes and broadcast offsets, exhaustively over small shapes
+    lines, wants = [], []
+    for shape in [(), (3,), (2, 3), (3, 4), (2, 3, 4)]:
+        for axis in [(-1,), (-3,), (-3, -1), (-2,), (-3, -2, -1), (-2, -1), (0,), (1, 2), (-4,), (5,)]:
+            lines.append(f'unsq {len(shape)} {ints(shape)} {len(axis)} {ints(axis)}')
+            try:
+                wants.append('ok ' + ints(unsqueeze(np.zeros(shape), axis).shape))
+            except (IndexError, ValueError):
+                wants.append('index-error')
+    for o, w_, ln in zip(run_driver(lines, exe=EXE), wants, lines):
+        ctx.corr('unsqueeze', o.strip() == w_.strip(), f'{ln}: code {w_!r} model {o!r}')
+    lines, wants = [], []
+    for shape in [(2, 3, 4), (1, 3, 4), (2, 1, 4), (2, 3, 1), (3, 1), (1, 1, 1), (2, 1, 1), (1, 3, 1), (3, 4), (4,), ()]:
+        arr = np.arange(int(np.prod(shape, dtype=int))).reshape(shape)
+        full = np.broadcast_to(arr, (2, 3, 4))
+        for idx in np.ndindex(2, 3, 4):
+            lines.append(f'bidx {len(shape)} {ints(shape)} 3 {ints(idx)}')
+            wants.append(int(full[idx]))
+    for o, w_, ln in zip(run_driver(lines, exe=EXE), wants, lines):
+        ctx.corr('broadcast-offset', int(o) == w_, f'{ln}: code {w_} model {o}')
+
+
+def _corr_initializers(ctx):
+    """(iii) initialisers with the RNG draws captured by re-seeding the global generator"""
+    rng = ctx.rng
+    lines, wants, ops = [], [], []
+    for i in range(ctx.n(60, 1200)):
+        K = int(rng.integers(1, 7))
+        N = int(rng.integers(1, 12))
+        lead = [int(rng.integers(1, 3)) for _ in range(int(rng.integers(0, 2)))]
+        Y = np.ones(tuple(lead) + (N, 2))
+        seed = int(rng.integers(0, 2 ** 31))
+        pf = bool(rng.random() < 0.5)
+        # uniform_normalized: the draws are the first call on the global RNG
+        np.random.seed(seed)
+        a = initializer.iid.uniform_normalized(Y, K, permutation_free=pf)
+        np.random.seed(seed)
+        u = np.random.uniform(size=(K, N) if pf else tuple(lead) + (K, N))
+        u = np.broadcast_to(u, a.shape).reshape(-1, K, N)
+        a2 = a.reshape(-1, K, N)
+        for j in range(u.shape[0]):
+            for n in range(N):
+                lines.append(f'unifnorm {K} {fbits(u[j, :, n])}')
+                wants.append(a2[j, :, n])
+                ops.append('uniform_normalized')
+        # one_hot
+        np.random.seed(seed)
+        a = initializer.iid.one_hot(Y, K, permutation_free=pf)
+        np.random.seed(seed)
+        lab = np.random.randint(K, size=N if pf else tuple(lead) + (N,))
+        lab = np.broadcast_to(lab, a.shape[:-2] + (N,)).reshape(-1, N)
+        a2 = a.reshape(-1, K, N)
+        for j in range(lab.shape[0]):
+            lines.append(f'onehot {K} {N} {ints(lab[j])}')
+            wants.append(a2[j].ravel())
+            ops.append('one_hot')
+        # dirichlet
+        alpha = float(rng.choice([1.0, 0.5, 3.0]))
+        np.random.seed(seed)
+        a = initializer.iid.dirichlet(Y, K, permutation_free=pf, alpha=alpha)
+        np.random.seed(seed)
+        d = np.random.dirichlet(np.full(K, alpha), size=N if pf else tuple(lead) + (N,))
+        d = np.broadcast_to(d, a.shape[:-2] + (N, K)).reshape(-1, N, K)
+        a2 = a.reshape(-1, K, N)
+        for j in range(d.shape[0]):
+            lines.append(f'dirichlett {K} {N} {fbits(d[j])}')
+            wants.append(a2[j].ravel())
+            ops.append('dirichlet')
+        # flag: labels of np.linspace compared exactly, values to rounding
+        lab = np.linspace(0, K, N, dtype=int, endpoint=False)
+        for K2, N2 in ((K, N), (int(rng.integers(1, 21)), int(rng.integers(1, 600))), (2, 98), (6, 94), (4, 98)):
+            lines.append(f'flaglabels {K2} {N2}')
+            wants.append(np.linspace(0, K2, N2, dtype=int, endpoint=False))
+            ops.append('flag-labels')
+        minimum = float(rng.uniform(0, 1)) / K
+        if 0 < minimum < 1 / K:
+            a = initializer.deterministic.flag(Y, K, permutation_free=True, minimum=minimum)
+            lines.append(f'flag {K} {N} {fbits([minimum])} {ints(lab)}')
+            wants.append(a.reshape(-1, K, N)[0].ravel())
+            ops.append('flag')
+        a = initializer.deterministic.flag(Y, K, permutation_free=True, minimum=0)
+        lines.append(f'onehot {K} {N} {ints(lab)}')
+        wants.append(a.reshape(-1, K, N)[0].ravel())
+        ops.append('flag(minimum=0)')
+    out = run_driver(lines, exe=EXE)
+    for o, w_, op, ln in zip(out, wants, ops, lines):
+        if op == 'flag-labels':
+            ok = np.array_equal(parse_ints(o) if o.strip() else np.zeros(0, int), w_)
+        elif op in ('one_hot', 'flag(minimum=0)', 'dirichlet'):
+            ok = np.array_equal(parse_floats(o), np.asarray(w_, dtype=np.float64))
+        else:
+            ok = _close(parse_floats(o), w_, rtol=1e-12)
+        ctx.corr(op, ok, f'{ln[:80]}: code {np.asarray(w_).ravel()[:6]} model {o[:80]}')
+    # deflation: similarities and PCA modes are captured through the documented hook / by wrapping the external
+    import pb_bss.extraction as ext
+    for i in range(ctx.n(2, 12)):
+        F, nb = 257, int(rng.integers(1, 4))
+        T = int(rng.integers(2 * nb + 1, 2 * nb + 6))
+        D = int(rng.integers(2, 5))
+        K = int(rng.integers(2, 5))
+        Y = pu.cnormal(rng, (F, T, D))
+        sims, modes = [], []
+        orig = ext.get_pca_vector
+
+        def wrapped(psd, *a, **k):
+            r = orig(psd, *a, **k)
+            modes.append(np.array(r))
+            return r
+
+        def hook(similarity, saliencies):
+            sims.append(np.array(similarity))
+            return similarity
+        eps = float(rng.choice([0.0, 1e-6]))
+        ext.get_pca_vector = wrapped
+        try:
+            post = initializer.deflation.deflationSeed(Y, K, permutation_free=bool(rng.random() < 0.5), neighbors=nb,
+                                                       similarity_transform=hook, eps=eps)
+        finally:
+            ext.get_pca_vector = orig
+        fs = rng.integers(0, F, size=ctx.n(6, 40))
+        lines, wants, ops = [], [], []
+        Z = Y / np.maximum(np.linalg.norm(Y, axis=-1, keepdims=True), pu.TINY)
+        for f in fs:
+            for t in range(T):
+                lines.append(f'defltail {K - 1} {fbits([eps])} {fbits([s[f, t] for s in sims])}')
+                wants.append(post[:, f, t])
+                ops.append('deflation-tail')
+                k = int(rng.integers(0, K - 1))
+                lines.append(f'unitnorm max {D} {fbits([pu.TINY])} {cbits(modes[k][f])}')
+                wants.append(None)
+                ops.append(('mode', f, t, k))
+        out = run_driver(lines, exe=EXE)
+        sim_lines, sim_wants = [], []
+        for o, w_, op in zip(out, wants, ops):
+            if op == 'deflation-tail':
+                ctx.corr('deflation-tail', _close(parse_floats(o), w_, rtol=1e-9, atol=1e-15),
+                         f'code {w_} model {parse_floats(o)}')
+            else:
+                _, f, t, k = op
+                sim_lines.append(f'deflsim {D} {cbits(Z[f, t])} {cbits(parse_complex(o))}')
+                sim_wants.append(sims[k][f, t])
+        for o, w_ in zip(run_driver(sim_lines, exe=EXE), sim_wants):
+            ctx.corr('deflation-similarity', _close(parse_floats(o), [w_], rtol=1e-9, atol=1e-14),
+                     f'code {w_} model {parse_floats(o)}')
+
+
+def _corr_unit_norm(ctx):
+    rng = ctx.rng
+    lines, wants, ops = [], [], []
+    for i in range(ctx.n(150, 3000)):
+        D = int(rng.integers(1, 9))
+        kind = str(rng.choice(['normal', 'zero', 'big', 'small', 'tiny-norm', 'real']))
+        y = pu.cnormal(rng, (D,))
+        if kind == 'zero':
+            y[:] = 0
+        elif kind == 'big':
+            y *= 1e150
+        elif kind == 'small':
+            y *= 1e-150
+        elif kind == 'tiny-norm':
+            y *= 1e-20
+        elif kind == 'real':
+            y = y.real + 0j
+        style = str(rng.choice(['plus', 'max', 'where']))
+        eps = float(rng.choice([1e-4, pu.TINY, 1e-10]))
+        lines.append(f'unitnorm {style} {D} {fbits([eps])} {cbits(y)}')
+        wants.append(_unit_norm(y, axis=-1, eps=eps, eps_style=style))
+        ops.append(f'_unit_norm[{style}]')
+        ctx.count(f'corr-unit-norm:{kind}')
+        if rng.random() < 0.3:
+            lines.append(f'unitnorm where {D} {fbits([pu.TINY])} {cbits(y)}')
+            wants.append(cacg_mod.normalize_observation(y[None, :])[:, 0])
+            ops.append('cacg.normalize_observation')
+    for o, w_, op, ln in zip(run_driver(lines, exe=EXE), wants, ops, lines):
+        got = parse_complex(o)
+        ok = _close(got.real, w_.real, rtol=1e-9, atol=1e-300) and _close(got.imag, w_.imag, rtol=1e-9, atol=1e-300)
+        ctx.corr(op, ok, f'{ln[:60]}: code {w_} model {got}')
+
+
 def corr(ctx):
-    pass
+    _corr_kernel(ctx)
+    _corr_predict(ctx)
+    _corr_initializers(ctx)
+    _corr_unit_norm(ctx)
